@@ -165,9 +165,8 @@ func prepareQuery(ctx context.Context, typ Type, selectionSet *SelectionSet, pre
 				if selection.SelectionSet != nil {
 					return NewClientError(`scalar field "__typename" must have no selection`)
 				}
-				for _, fragment := range selectionSet.Fragments {
-					fragment.SelectionSet.Selections = append(fragment.SelectionSet.Selections, selection)
-				}
+				// Selected on the union itself: resolveUnionBatch resolves it together
+				// with the fragments on the member.
 				continue
 			}
 			return NewClientError(`unknown field "%s"`, selection.Name)
